@@ -25,6 +25,9 @@ let step_oracles (bump : str -> unit) (pre : vt) (f : func) (post : vt) : (str *
   chk "C16" "alt_resized" (holds_C16_resized pre f post);
   chk "C17" "saved" (holds_C17 pre f post);
   chk "C18" "tabs" (holds_C18 pre f post);
+  (match f with
+   | Ht | Cht _ | Cbt _ -> chk "C18" "tab_moves" (holds_C05 pre f post)   (* HT/CHT/CBT go to the n-th next / previous stop *)
+   | _ -> ());
   chk "C19" "ris" (holds_C19 pre f post);
   chk "C03" "sgr_params_as_written" (holds_C03_sgr f post);
   !r
